@@ -151,3 +151,31 @@ package services
 //@   nopanic
 //@   requires s != nil && s.client != nil && req != nil && tables_wf()
 //@   requires forall i int :: {req.Messages[i]} 0 <= i && i < len(req.Messages) ==> req.Messages[i] != nil
+
+// Response mappers: total on non-nil entities.
+//@ func entSubscriptionToGrpc(subscription, topicName, deadLetterTopicName) (result)
+//@   property C16
+//@   uses tables backoff
+//@   nopanic
+//@   requires subscription != nil
+//@   ensures result != nil
+//@ func entSnapshotToGrpc(snapshot, topicName) (result)
+//@   property C16
+//@   nopanic
+//@   requires snapshot != nil
+//@   ensures result != nil
+//@ func entTopicToGrpc(topic) (result)
+//@   property C16
+//@   nopanic
+//@   requires topic != nil
+//@   ensures result != nil
+
+// the update-mask loop of UpdateSubscription / UpdateTopic never loses the request
+//@ func (*subscriberServer).UpdateSubscription$1(tx) (err)
+//@   inline
+//@   loop 1
+//@     invariant req.Subscription != nil && req != nil
+//@ func (*publisherServer).UpdateTopic$1(tx) (err)
+//@   inline
+//@   loop 1
+//@     invariant req.Topic != nil && req != nil
